@@ -19,7 +19,7 @@ CONSTANTS
   LimModes = {"base"}
   EditPos <- AllPos
   EditKinds = {"del", "ins", "sub"}
-  EditVals = {45, 13, 10, 88, 98}
+  EditVals = {45, 13, 10, 88}
   Depth = 0
 INVARIANT ContentExact
 INVARIANT CorruptionIsErrorOrWellDefined
